@@ -1115,6 +1115,10 @@ func (env *SpecEnv) evalCall(x *SExpr) *SV {
 				ls = append(ls, e.heapGet(env.state(), fmt.Sprintf("G|$call:%s|%d", args[0].Name, i)))
 			}
 			return &SV{V: &Val{L: ls}, T: rt}
+		case "selected":
+			k := "G|$selected|0"
+			e.regHeap(k, SInt, "selected", "G", nil)
+			return &SV{V: scalar(e.heapGet(env.state(), k)), T: nil, Math: true}
 		case "closed":
 			a := env.eval(args[0])
 			return boolSV(sel(e.heapGet(env.state(), e.keyChanClosed()), a.V.L[0]))
